@@ -142,7 +142,7 @@ def check(col: Collector, tier: str):
                     cvar = [n.targets[0].id for n in walk_no_nested(fn_) if isinstance(n, ast.Assign) and n.value is calls[0] and isinstance(n.targets[0], ast.Name)]
                     a_ = kwarg(calls[0], "args")
                     elts = [src(resolve_name(fn_, e.func.value))[:200] if isinstance(e, ast.Call) and call_name(e) == "as_ast" else src(e) for e in (a_.elts if isinstance(a_, ast.List) else [])]
-                    shape_ok = len(elts) == 3 and ".begin()" in elts[0] and ".end()" in elts[1] and "initial_value=self.get_rep(lower_bound)" in elts[2].replace(" ", "")
+                    shape_ok = len(elts) == 3 and ".begin()" in elts[0] and ".end()" in elts[1] and "initial_value=self.get_rep(args[0])" in elts[2].replace(" ", "")
                     emitted = [c for c in walk_no_nested(fn_) if isinstance(c, ast.Call) and call_name(c) == "add_statement" and cvar
                                and f"self.get_rep({cvar[0]})" in src(c)]
                     mk = [c for c in walk_no_nested(fn_) if isinstance(c, ast.Call) and call_name(c) == "make_sequence_from_collection"]
